@@ -497,7 +497,7 @@ def weave_item(hdr, subs, stats):
     if attrs:
         ot.insert(0, "\n".join(attrs) + "\n")
     meta = {
-        "file": rel, "kind": kind, "name": name if not hdr.get("in") else f"{hdr['in']} :: {name}",
+        "file": rel, "kind": kind, "name": _item_id(rel, name),
         "lines": [first_line, last_line],
         "sha256": hashlib.sha256(orig_text.encode()).hexdigest(),
         "rewrites": log, "woven_clauses": clauses,
@@ -564,6 +564,13 @@ def _truncate_casts(ot, types):
                 break
         if done:
             return n
+
+
+def _item_id(rel, name):
+    parts = rel.split("/")
+    crate = parts[1] if len(parts) > 2 and parts[0] == "rust" else parts[0]
+    stem = os.path.splitext(parts[-1])[0]
+    return f"{crate}/{stem}::{name}"
 
 
 def _count_clauses(txt):
